@@ -71,41 +71,59 @@ Section Valid.
     apply N.leb_le in H. unfold two63. lia.
   Qed.
 
-  (** [check_validity] = the specification-level predicate; in particular it never panics. *)
-  Lemma check_validity_eq r0 bt s h :
+  (** [check_validity] = the specification-level predicate (and the two candidate repairs); in particular it
+      never panics. *)
+  Lemma check_validity_eq v r0 bt s h :
     idx_wf r0 (idx s) -> h_num h < two63 ->
-    check_validity hash ethash_ok bt s h = if valid_child_b hash ethash_ok bt s h then Ok tt else Err.
+    check_validity_gen hash ethash_ok v bt s h =
+      if valid_child_b hash ethash_ok bt s h && rev_ok v s h && exp_ok v bt s h then Ok tt else Err.
   Proof.
-    intros WF Hn. unfold check_validity, valid_child_b, verify_header, parent_of, rules_b.
-    assert (Hn64 : h_num h < two64) by (pose proof two63_lt_two64; lia).
-    destruct (validate_basic h) eqn:VB; cbn [negb].
-    2:{ (* not valid: the predicate is false whatever else *)
-      destruct (1 <=? h_num h); cbn [andb]; [|reflexivity].
-      destruct (h_num h <? two63); cbn [andb]; [|reflexivity].
-      destruct (iget _ (idx s)); [|reflexivity]. rewrite andb_false_r. reflexivity. }
-    destruct (N.leb_spec 1 (h_num h)) as [H1|H1].
-    2:{ (* number 0: the parent key is (_, 2^64-1), which a well-formed index does not hold *)
-      cbn [andb]. assert (h_num h = 0) as -> by lia.
-      destruct (iget (to_hash (h_parent h), sub64 0 1) (idx s)) as [p|] eqn:E; [|reflexivity].
-      exfalso. apply WF in E. destruct E as [_ [E [_ [L _]]]]. rewrite sub64_zero in E. rewrite E in L.
-      revert L. unfold two63, two64. lia. }
-    rewrite sub64_pred by assumption.
-    destruct (N.ltb_spec (h_num h) two63) as [_|]; [|lia]. cbn [andb].
-    destruct (iget (to_hash (h_parent h), h_num h - 1) (idx s)) as [p|] eqn:E; [|reflexivity].
-    apply WF in E. destruct E as [_ [_ [_ [_ Gp]]]].
-    destruct (beq (hash p) (to_hash (h_parent h))); cbn [negb andb obind]; [|reflexivity].
-    rewrite (N.leb_antisym (bt + 15) (h_time h)). destruct (bt + 15 <? h_time h); cbn [negb andb obind]; [reflexivity|].
-    rewrite (N.ltb_antisym (h_time h) (h_time p)). destruct (h_time h <=? h_time p); cbn [negb andb obind]; [reflexivity|].
-    rewrite verify_gaslimit_spec by (auto using validate_basic_gaslimit).
-    destruct (gaslimit_ok (h_gaslimit p) (h_gaslimit h)) eqn:GL; cbn [negb andb obind]; [|reflexivity].
-    rewrite calc_base_fee_spec by (apply gaslimit_ok_parent_big in GL; lia).
-    destruct (big (h_basefee h) =? expected_base_fee p); cbn [negb andb obind]; [|reflexivity].
-    rewrite Z.eqb_sym.
-    destruct (chain_id s =? rinkeby) eqn:R; cbn [orb obind].
-    - destruct (Z.of_N (big (h_diff h)) =? calc_difficulty (h_time h) p)%Z; cbn [obind]; rewrite ?R; reflexivity.
-    - destruct (Z.of_N (big (h_diff h)) =? calc_difficulty (h_time h) p)%Z; cbn [andb obind]; rewrite ?R; [|reflexivity].
-      rewrite (N.leb_antisym 32 (len (h_extra h))). destruct (32 <? len (h_extra h)); cbn [negb andb]; [reflexivity|].
-      destruct (ethash_ok h); reflexivity.
+    intros WF Hn.
+    (* the code without the candidate repairs *)
+    assert (Core : (if negb (validate_basic h) then Err else
+                    _ <- verify_header hash bt s h ;;
+                    if chain_id s =? rinkeby then Ok tt
+                    else if 32 <? len (h_extra h) then Err
+                    else if ethash_ok h then Ok tt else Err)
+                   = if valid_child_b hash ethash_ok bt s h then Ok tt else Err).
+    { unfold valid_child_b, verify_header, parent_of, rules_b.
+      assert (Hn64 : h_num h < two64) by (pose proof two63_lt_two64; lia).
+      destruct (validate_basic h) eqn:VB; cbn [negb].
+      2:{ (* not valid: the predicate is false whatever else *)
+        destruct (1 <=? h_num h); cbn [andb]; [|reflexivity].
+        destruct (h_num h <? two63); cbn [andb]; [|reflexivity].
+        destruct (iget _ (idx s)); [|reflexivity]. rewrite andb_false_r. reflexivity. }
+      destruct (N.leb_spec 1 (h_num h)) as [H1|H1].
+      2:{ (* number 0: the parent key is (_, 2^64-1), which a well-formed index does not hold *)
+        cbn [andb]. assert (h_num h = 0) as -> by lia.
+        destruct (iget (to_hash (h_parent h), sub64 0 1) (idx s)) as [p|] eqn:E; [|reflexivity].
+        exfalso. apply WF in E. destruct E as [_ [E [_ [L _]]]]. rewrite sub64_zero in E. rewrite E in L.
+        revert L. unfold two63, two64. lia. }
+      rewrite sub64_pred by assumption.
+      destruct (N.ltb_spec (h_num h) two63) as [_|]; [|lia]. cbn [andb].
+      destruct (iget (to_hash (h_parent h), h_num h - 1) (idx s)) as [p|] eqn:E; [|reflexivity].
+      apply WF in E. destruct E as [_ [_ [_ [_ Gp]]]].
+      destruct (beq (hash p) (to_hash (h_parent h))); cbn [negb andb obind]; [|reflexivity].
+      rewrite (N.leb_antisym (bt + 15) (h_time h)). destruct (bt + 15 <? h_time h); cbn [negb andb obind]; [reflexivity|].
+      rewrite (N.ltb_antisym (h_time h) (h_time p)). destruct (h_time h <=? h_time p); cbn [negb andb obind]; [reflexivity|].
+      rewrite verify_gaslimit_spec by (auto using validate_basic_gaslimit).
+      destruct (gaslimit_ok (h_gaslimit p) (h_gaslimit h)) eqn:GL; cbn [negb andb obind]; [|reflexivity].
+      rewrite calc_base_fee_spec by (apply gaslimit_ok_parent_big in GL; lia).
+      destruct (big (h_basefee h) =? expected_base_fee p); cbn [negb andb obind]; [|reflexivity].
+      rewrite Z.eqb_sym.
+      destruct (chain_id s =? rinkeby) eqn:R; cbn [orb obind].
+      - destruct (Z.of_N (big (h_diff h)) =? calc_difficulty (h_time h) p)%Z; cbn [obind]; rewrite ?R; reflexivity.
+      - destruct (Z.of_N (big (h_diff h)) =? calc_difficulty (h_time h) p)%Z; cbn [andb obind]; rewrite ?R; [|reflexivity].
+        rewrite (N.leb_antisym 32 (len (h_extra h))). destruct (32 <? len (h_extra h)); cbn [negb andb]; [reflexivity|].
+        destruct (ethash_ok h); reflexivity. }
+    unfold check_validity_gen.
+    destruct (validate_basic h) eqn:VB; cbn [negb] in *.
+    2:{ destruct (valid_child_b hash ethash_ok bt s h); [discriminate | reflexivity]. }
+    destruct (rev_ok v s h); cbn [negb]; [|rewrite andb_false_r; reflexivity].
+    destruct (exp_ok v bt s h); cbn [negb]; [rewrite !andb_true_r; exact Core|].
+    rewrite andb_false_r.
+    destruct (verify_header hash bt s h) as [[]| |]; cbn [obind] in *; try reflexivity.
+    destruct (valid_child_b hash ethash_ok bt s h); discriminate.
   Qed.
 
   (** the parent named by an accepted header *)
